@@ -443,4 +443,141 @@ theorem spec_parseEnumValuesDefinition (n : Nat) : Spec (parseEnumValuesDefiniti
   obtain ⟨u, h1, h2, h3, h4⟩ := bracketed_block rfl rfl hb hne
   exact ⟨u, h1, fun hg => block_optD .enumValuesDefinition rfl h3 (h4 hg), h3, h2⟩
 
+/-! ### type definitions and extensions: the common body `keyword Name …` -/
+
+theorem kwTok {t : Token} {s : String} (k : t.kind = .name) (v : t.value = str s) : Tok.ofToken t = tKw s := by
+  simp [Tok.ofToken, tKw, k, v]
+
+/-- what the kind-specific parts of a type definition / extension are, after `keyword Name`:
+    `tsI` before the directives (ImplementsInterfaces), `tsB` after them (fields, members, values) -/
+def BodyParts (d : Definition) (tsI tsB : List Tok) : Prop :=
+  match d.kind with
+  | .scalar => tsI = [] ∧ tsB = []
+  | .object =>
+      OptD .implementsInterfaces tsI (printImplements d.interfaces) (d.interfaces = []) ∧
+      OptD .fieldsDefinition tsB (printBlock printFieldDef d.fields) (d.fields = []) ∧ ∀ f ∈ d.fields, WFFieldDef f
+  | .interface =>
+      OptD .implementsInterfaces tsI (printImplements d.interfaces) (d.interfaces = []) ∧
+      OptD .fieldsDefinition tsB (printBlock printFieldDef d.fields) (d.fields = []) ∧ ∀ f ∈ d.fields, WFFieldDef f
+  | .union => tsI = [] ∧ OptD .unionMemberTypes tsB (printMembers d.types) (d.types = [])
+  | .enum => tsI = [] ∧
+      ((∀ e ∈ d.enumValues, notLiteralName e.name) →
+        OptD .enumValuesDefinition tsB (printBlock printEnumVal d.enumValues) (d.enumValues = [])) ∧
+      (d.enumValues = [] → tsB = []) ∧ ∀ e ∈ d.enumValues, ConstDirectives e.dirs
+  | .inputObject => tsI = [] ∧
+      OptD .inputFieldsDefinition tsB (printBlock printInputField d.fields) (d.fields = []) ∧
+      ∀ f ∈ d.fields, WFInputField f
+
+/-- the body of a type definition or extension was parsed from `u` -/
+def BodyOf (d : Definition) (u : List Token) : Prop :=
+  ∃ tsI tsB, tk u = DefKind.keyword d.kind :: tName d.name :: (tsI ++ (printDirectives d.dirs ++ tsB)) ∧
+    ConstDirectives d.dirs ∧ (∃ t ∈ u, d.pos.start = t.start) ∧ BodyParts d tsI tsB
+
+/-- the one place where the parser is more liberal than the grammar -/
+def EnumOK (d : Definition) : Prop := d.kind = .enum → ∀ e ∈ d.enumValues, notLiteralName e.name
+
+theorem spec_parseScalarTypeDefinition (n : Nat) (desc : Bytes) :
+    Spec (parseScalarTypeDefinition n desc) (Eats fun d u => BodyOf d u ∧ d.desc = desc) := by
+  unfold parseScalarTypeDefinition
+  refine (Spec.bind (spec_expectKeyword kwScalar) fun _ => Spec.bind spec_peekPos fun pos =>
+    Spec.bind spec_parseName' fun name => Spec.bind (spec_parseDirectives n true) fun dirs => Spec.pure _).mono ?_
+  rintro d a a'' _ ⟨tkw, a1, ⟨u0, h0, rfl, k0, v0⟩, pos, a2, ⟨rfl, hpos⟩, name, a3, ⟨u1, h1, tnm, rfl, k1, rfl, _⟩,
+    dirs, a5, ⟨u3, h3, p3⟩, rfl, rfl⟩
+  refine ⟨_, h0.trans ((Ate.peeked a1).trans (h1.trans h3)), ⟨[], [], ?_, p3.2 rfl, ⟨tnm, by simp, ?_⟩, ?_⟩, rfl⟩
+  · simp [kwTok k0 v0, ofToken_name k1, p3.1, DefKind.keyword]
+  · rw [hpos]; exact congrArg Token.start h1.head
+  · exact ⟨rfl, rfl⟩
+
+theorem spec_parseObjectTypeDefinition (n : Nat) (desc : Bytes) :
+    Spec (parseObjectTypeDefinition n desc) (Eats fun d u => BodyOf d u ∧ d.desc = desc) := by
+  unfold parseObjectTypeDefinition
+  refine (Spec.bind (spec_expectKeyword kwType) fun _ => Spec.bind spec_peekPos fun pos =>
+    Spec.bind spec_parseName' fun name => Spec.bind (spec_parseImplementsInterfaces n) fun ifs =>
+    Spec.bind (spec_parseDirectives n true) fun dirs => Spec.bind (spec_parseFieldsDefinition n) fun fields =>
+    Spec.pure _).mono ?_
+  rintro d a a'' _ ⟨tkw, a1, ⟨u0, h0, rfl, k0, v0⟩, pos, a2, ⟨rfl, hpos⟩, name, a3, ⟨u1, h1, tnm, rfl, k1, rfl, _⟩,
+    ifs, a4, ⟨u2, h2, p2⟩, dirs, a5, ⟨u3, h3, p3⟩, fields, a6, ⟨u4, h4, p4⟩, rfl, rfl⟩
+  refine ⟨_, h0.trans ((Ate.peeked a1).trans (h1.trans (h2.trans (h3.trans h4)))),
+    ⟨tk u2, tk u4, ?_, p3.2 rfl, ⟨tnm, by simp, ?_⟩, ?_⟩, rfl⟩
+  · simp [kwTok k0 v0, ofToken_name k1, p3.1, DefKind.keyword]
+  · rw [hpos]; exact congrArg Token.start h1.head
+  · exact ⟨p2, p4.1, p4.2⟩
+
+theorem spec_parseInterfaceTypeDefinition (n : Nat) (desc : Bytes) :
+    Spec (parseInterfaceTypeDefinition n desc) (Eats fun d u => BodyOf d u ∧ d.desc = desc) := by
+  unfold parseInterfaceTypeDefinition
+  refine (Spec.bind (spec_expectKeyword kwInterface) fun _ => Spec.bind spec_peekPos fun pos =>
+    Spec.bind spec_parseName' fun name => Spec.bind (spec_parseImplementsInterfaces n) fun ifs =>
+    Spec.bind (spec_parseDirectives n true) fun dirs => Spec.bind (spec_parseFieldsDefinition n) fun fields =>
+    Spec.pure _).mono ?_
+  rintro d a a'' _ ⟨tkw, a1, ⟨u0, h0, rfl, k0, v0⟩, pos, a2, ⟨rfl, hpos⟩, name, a3, ⟨u1, h1, tnm, rfl, k1, rfl, _⟩,
+    ifs, a4, ⟨u2, h2, p2⟩, dirs, a5, ⟨u3, h3, p3⟩, fields, a6, ⟨u4, h4, p4⟩, rfl, rfl⟩
+  refine ⟨_, h0.trans ((Ate.peeked a1).trans (h1.trans (h2.trans (h3.trans h4)))),
+    ⟨tk u2, tk u4, ?_, p3.2 rfl, ⟨tnm, by simp, ?_⟩, ?_⟩, rfl⟩
+  · simp [kwTok k0 v0, ofToken_name k1, p3.1, DefKind.keyword]
+  · rw [hpos]; exact congrArg Token.start h1.head
+  · exact ⟨p2, p4.1, p4.2⟩
+
+theorem spec_parseUnionTypeDefinition (n : Nat) (desc : Bytes) :
+    Spec (parseUnionTypeDefinition n desc) (Eats fun d u => BodyOf d u ∧ d.desc = desc) := by
+  unfold parseUnionTypeDefinition
+  refine (Spec.bind (spec_expectKeyword kwUnion) fun _ => Spec.bind spec_peekPos fun pos =>
+    Spec.bind spec_parseName' fun name => Spec.bind (spec_parseDirectives n true) fun dirs =>
+    Spec.bind (spec_parseUnionMemberTypes n) fun types => Spec.pure _).mono ?_
+  rintro d a a'' _ ⟨tkw, a1, ⟨u0, h0, rfl, k0, v0⟩, pos, a2, ⟨rfl, hpos⟩, name, a3, ⟨u1, h1, tnm, rfl, k1, rfl, _⟩,
+    dirs, a5, ⟨u3, h3, p3⟩, types, a6, ⟨u4, h4, p4⟩, rfl, rfl⟩
+  refine ⟨_, h0.trans ((Ate.peeked a1).trans (h1.trans (h3.trans h4))),
+    ⟨[], tk u4, ?_, p3.2 rfl, ⟨tnm, by simp, ?_⟩, ?_⟩, rfl⟩
+  · simp [kwTok k0 v0, ofToken_name k1, p3.1, DefKind.keyword]
+  · rw [hpos]; exact congrArg Token.start h1.head
+  · exact ⟨rfl, p4⟩
+
+theorem spec_parseEnumTypeDefinition (n : Nat) (desc : Bytes) :
+    Spec (parseEnumTypeDefinition n desc) (Eats fun d u => BodyOf d u ∧ d.desc = desc) := by
+  unfold parseEnumTypeDefinition
+  refine (Spec.bind (spec_expectKeyword kwEnum) fun _ => Spec.bind spec_peekPos fun pos =>
+    Spec.bind spec_parseName' fun name => Spec.bind (spec_parseDirectives n true) fun dirs =>
+    Spec.bind (spec_parseEnumValuesDefinition n) fun evs => Spec.pure _).mono ?_
+  rintro d a a'' _ ⟨tkw, a1, ⟨u0, h0, rfl, k0, v0⟩, pos, a2, ⟨rfl, hpos⟩, name, a3, ⟨u1, h1, tnm, rfl, k1, rfl, _⟩,
+    dirs, a5, ⟨u3, h3, p3⟩, evs, a6, ⟨u4, h4, p4⟩, rfl, rfl⟩
+  refine ⟨_, h0.trans ((Ate.peeked a1).trans (h1.trans (h3.trans h4))),
+    ⟨[], tk u4, ?_, p3.2 rfl, ⟨tnm, by simp, ?_⟩, ?_⟩, rfl⟩
+  · simp [kwTok k0 v0, ofToken_name k1, p3.1, DefKind.keyword]
+  · rw [hpos]; exact congrArg Token.start h1.head
+  · exact ⟨rfl, p4.1, fun h => by rw [p4.2.1 h]; rfl, p4.2.2⟩
+
+theorem spec_parseInputObjectTypeDefinition (n : Nat) (desc : Bytes) :
+    Spec (parseInputObjectTypeDefinition n desc) (Eats fun d u => BodyOf d u ∧ d.desc = desc) := by
+  unfold parseInputObjectTypeDefinition
+  refine (Spec.bind (spec_expectKeyword kwInput) fun _ => Spec.bind spec_peekPos fun pos =>
+    Spec.bind spec_parseName' fun name => Spec.bind (spec_parseDirectives n true) fun dirs =>
+    Spec.bind (spec_parseInputFieldsDefinition n) fun fields => Spec.pure _).mono ?_
+  rintro d a a'' _ ⟨tkw, a1, ⟨u0, h0, rfl, k0, v0⟩, pos, a2, ⟨rfl, hpos⟩, name, a3, ⟨u1, h1, tnm, rfl, k1, rfl, _⟩,
+    dirs, a5, ⟨u3, h3, p3⟩, fields, a6, ⟨u4, h4, p4⟩, rfl, rfl⟩
+  refine ⟨_, h0.trans ((Ate.peeked a1).trans (h1.trans (h3.trans h4))),
+    ⟨[], tk u4, ?_, p3.2 rfl, ⟨tnm, by simp, ?_⟩, ?_⟩, rfl⟩
+  · simp [kwTok k0 v0, ofToken_name k1, p3.1, DefKind.keyword]
+  · rw [hpos]; exact congrArg Token.start h1.head
+  · exact ⟨rfl, p4.1, p4.2⟩
+
+/-- `parseTypeSystemDefinition` -/
+theorem spec_parseTypeSystemDefinition (n : Nat) (desc : Bytes) :
+    Spec (parseTypeSystemDefinition n desc) (Eats fun d u => BodyOf d u ∧ d.desc = desc) := by
+  unfold parseTypeSystemDefinition
+  refine (Spec.bind spec_peek fun tok => Spec.ite
+    (fun _ => Spec.of_dead_bind (R := fun _ _ _ => False) unexpectedError_dead) fun _ => Spec.ite
+    (fun _ => spec_parseScalarTypeDefinition n desc) fun _ => Spec.ite
+    (fun _ => spec_parseObjectTypeDefinition n desc) fun _ => Spec.ite
+    (fun _ => spec_parseInterfaceTypeDefinition n desc) fun _ => Spec.ite
+    (fun _ => spec_parseUnionTypeDefinition n desc) fun _ => Spec.ite
+    (fun _ => spec_parseEnumTypeDefinition n desc) fun _ => Spec.ite
+    (fun _ => spec_parseInputObjectTypeDefinition n desc)
+    (fun _ => Spec.of_dead_bind (R := fun _ _ _ => False) unexpectedError_dead)).mono ?_
+  rintro d a a'' _ ⟨tok, a1, ⟨rfl, rfl⟩, ⟨_, hf⟩ | ⟨_, ⟨_, u, h, p⟩ | ⟨_, ⟨_, u, h, p⟩ | ⟨_, ⟨_, u, h, p⟩ | ⟨_, ⟨_, u, h, p⟩ |
+    ⟨_, ⟨_, u, h, p⟩ | ⟨_, ⟨_, u, h, p⟩ | ⟨_, hf⟩⟩⟩⟩⟩⟩⟩⟩
+  · exact hf.elim
+  all_goals first
+    | exact ⟨u, (Ate.peeked a).trans h, p⟩
+    | exact hf.elim
+
 end Gql.Parser
